@@ -3,7 +3,7 @@
 succeeded; (b) that check answers success only when the entry at prev_log_index has prev_log_term (or the
 (0,0) sentinel) and HigherTerm exactly when my_term > request.term; (c) tail truncation happens only at an
 index whose term differs from the incoming entry and is followed by inserting the incoming tail and a
-ReplaceRange task for the same index; (d) the leader fills prev_log_term from entry_term(next_index-1).
+ReplaceRange task for the same index; (d) the leader fills prev_log_term from entry_term(next_index-1); (e) entry_term, which both consistency checks rely on, answers only for indexes inside [min_index, max_index] or the purge boundary (exact table, shared with C19-a).
 Necessary conditions; the cross-node invariant itself is not decided."""
 from .common import *
 
@@ -159,3 +159,12 @@ def run(ctx):
             ctx.check("C04-d", "%s#prev_log" % fkey(bar), okc and pi.has_field("ReplicationData", "peer_next_indices") and bool(set(x for x in pt.sources if x[0] == "closure") & set(x for x in pi.sources if x[0] == "closure")),
                       "prev_log_index = next_index - 1 of the peer and prev_log_term = entry_term(prev_log_index)",
                       "prev_log_index/prev_log_term are not (next_index-1, entry_term(next_index-1)) of the same peer", loc(b, bi))
+
+
+_run_before_e = run
+
+
+def run(ctx):
+    _run_before_e(ctx)
+    from .c19 import entry_term_table
+    entry_term_table(ctx, "C04-e")
